@@ -313,6 +313,9 @@ def gen_consts():
     emit("/-- dateparser_data/settings.py settings (rendered) -/")
     emit("def settingsDefaults : List (String × String) := " + llist(sdict.items(), lambda kv: "(%s, %s)" % (lstr(kv[0]), lstr(json.dumps(kv[1], ensure_ascii=False, default=str)))))
 
+    zeros = [cp for cp in range(0x110000) if unicodedata.category(chr(cp)) == "Nd" and unicodedata.digit(chr(cp)) == 0]
+    emit("/-- zero code point of every Unicode block of decimal digits (category Nd), from the interpreter that runs the library -/")
+    emit("def ndZeros : List Nat := [%s]" % ", ".join(str(z) for z in zeros))
     emit("end DP.Gen")
     write_if_changed(os.path.join(GEN_LEAN, "Consts.lean"), "\n".join(L) + "\n")
     return sdict
